@@ -215,6 +215,9 @@ def expectedSafe (scenario rpc mode : String) : Bool :=
   | "join", "FinishJoin(false,true)", "fail" => false  -- release never delivered: successor locked
   | "leave", "RequestToLeave", "lost" => false          -- successor locked by a leaver that retries against its own lock
   | "leave", "FinishLeave(false,true)", "fail" => false -- release never delivered: successor locked
+  -- "leave-hi@join" / "leave-lo@join" × RequestToLeave × refused (the successor is locked for a join in flight
+  -- behind the leaver, the join concludes before the retry): safe — a refusal changes nothing
+  -- (`C06.requestToLeave_fail`) and the retry is a fresh attempt on the ring of that moment (C07/Retry.lean)
   | _, _, _ => true
 
 end Specter.C07
